@@ -149,6 +149,13 @@ class Run:
         ck = (h['name'], json.dumps(cfg, sort_keys=True), kind)
         with LOCK:
             if ck in self.native_cache: return self.native_cache[ck]
+            klock = self.__dict__.setdefault('key_locks', {}).setdefault(('exe',) + ck, threading.Lock())
+        with klock:     # single flight: two threads must never build (or run a half-written copy of) the same executable
+            return self._native_exe_build(h, cfg, kind, ck)
+
+    def _native_exe_build(self, h, cfg, kind, ck):
+        with LOCK:
+            if ck in self.native_cache: return self.native_cache[ck]
         tag = hashlib.md5(repr(ck).encode()).hexdigest()[:10]
         exe = os.path.join(self.scratch, 'nat-%s-%s-%s' % (h['name'], kind, tag))
         defs = ['-D%s=%s' % (k, v) for k, v in cfg.items() if not k.startswith('_')]
@@ -164,10 +171,13 @@ class Run:
             for key in h['kernels']:
                 tu = self.tus[key]
                 o = os.path.join(self.scratch, '%s.%s.o' % (key, kind))
-                if not os.path.exists(o):
-                    gflags = [f for f in tu['flags'] if f != '-mllvm']
-                    r = run_cmd([cxx, '-std=c++17', '-O1', '-g', '-w'] + san + gflags + ['-c', tu['src'], '-o', o], timeout=900)
-                    if r['rc'] != 0: raise Inconclusive('%s build failed: %s' % (kind, r['err'][-2000:]))
+                with LOCK: olock = self.__dict__.setdefault('key_locks', {}).setdefault(('obj', o), threading.Lock())
+                with olock:
+                    if not os.path.exists(o):
+                        gflags = [f for f in tu['flags'] if f != '-mllvm']
+                        r = run_cmd([cxx, '-std=c++17', '-O1', '-g', '-w'] + san + gflags + ['-c', tu['src'], '-o', o + '.tmp.o'], timeout=900)
+                        if r['rc'] != 0: raise Inconclusive('%s build failed: %s' % (kind, r['err'][-2000:]))
+                        os.replace(o + '.tmp.o', o)
                 objs.append(o)
         else:
             for key in h['kernels']:
@@ -386,6 +396,8 @@ class Run:
             r = run_cmd([exe, 'replay'] + ['0x%x' % v for v in inputs], timeout=120, env=env)
             out = r['out'] + '\n' + r['err']
             texts.append('--- %s build, rc=%s\n%s' % (kind, r['rc'], out[-3000:]))
+            if r['rc'] in (126, 127) or 'cannot run' in out or 'Text file busy' in out:
+                raise Inconclusive('replay binary could not be executed (%s build of %s): %s' % (kind, h['name'], out[-300:]))
             if 'REPLAY-ASSUME-FAIL' in out and 'REPLAY-ASSERT-FAIL' not in out and 'REPLAY-CRASH' not in out:
                 continue
             if 'REPLAY-ASSERT-FAIL' in out or 'REPLAY-CRASH' in out:
@@ -422,6 +434,7 @@ class Run:
             if ok:
                 if f['exclude_define'] not in extra: extra.append(f['exclude_define'])
                 hits.append(f)
+                if os.environ.get('NMV_DEBUG_KNOWN') and known is None: log('[known] witness of %s (%s) still fails (%s build):\n%s' % (f['id'], h['name'], kind, text[-1500:]))
             else:
                 log('[known] witness of %s (%s) no longer fails; its region is not excluded' % (f['id'], h['name']))
         with LOCK: self.excl_cache[key] = (extra, hits)
